@@ -399,6 +399,13 @@ m("referrers-skip-client-filter", ["C15"],
 m("oci-tags-ignore-last", ["C15"],
   ("content/oci/readonlyoci.go", """		if last != "" && tag <= last {""", """		if last != "" && tag < last {"""))
 
+m("remote-ismanifest-ignores-configured-types", ["C13"],
+  ("registry/remote/manifest.go", """	if len(manifestMediaTypes) == 0 {
+		manifestMediaTypes = defaultManifestMediaTypes
+	}
+	for _, mediaType := range manifestMediaTypes {
+		if desc.MediaType == mediaType {""", """	for _, mediaType := range defaultManifestMediaTypes {
+		if desc.MediaType == mediaType {"""))
 m("remote-tag-pushes-unverified-body", ["C13"],
   ("registry/remote/repository.go", """	manifest, err := content.ReadAll(rc, desc)
 	if err != nil {
